@@ -33,6 +33,27 @@ Theorem C07_simple_prefix : forall file chunks footer' file' loc,
 Proof. exact append_simple_prefix. Qed.
 Print Assumptions C07_simple_prefix.
 
+(* the validated relation: evaluated by the extracted checker on (bytes before, bytes after) of every
+   real single-file append; whatever else the writer does, every byte range below the old footer
+   start - all existing row groups - is unchanged *)
+Theorem C07_simple_relation_sound : forall before after,
+  check_append_rel before after = true <-> append_rel before after.
+Proof. exact check_append_rel_sound. Qed.
+Print Assumptions C07_simple_relation_sound.
+
+Theorem C07_simple_old_row_groups_untouched : forall before after, append_rel before after ->
+  exists loc, footer_loc false before = Some loc /\
+    forall off len, (off + len <= loc)%nat -> slice off len after = slice off len before.
+Proof. exact append_rel_old_slices. Qed.
+Print Assumptions C07_simple_old_row_groups_untouched.
+
+Theorem C07_simple_model_in_relation : forall data footer chunks footer' f',
+  (N.of_nat (length footer) < 2 ^ 32)%N -> (N.of_nat (length footer') < 2 ^ 32)%N ->
+  (length footer <= length (concat chunks) + length footer')%nat ->
+  append_simple (framed data footer) chunks footer' = Some f' -> append_rel (framed data footer) f'.
+Proof. exact append_simple_in_rel. Qed.
+Print Assumptions C07_simple_model_in_relation.
+
 Theorem C07_simple_framed : forall data footer chunks footer',
   (N.of_nat (length footer) < 2 ^ 32)%N ->
   (length footer <= length (concat chunks) + length footer')%nat ->
